@@ -161,3 +161,16 @@ Theorem C08_source_ref_generate :
   thin_of "GenericSequence<T> for &S" "generate" = Some "S :: generate (f)" /\
   thin_of "GenericSequence<T> for &mutS" "generate" = Some "S :: generate (f)".
 Proof. split; reflexivity. Qed.
+
+(* ---- T1: what the traits of this property declare in the source now (coq/gen/GenSigs.v gen_trait_headers):
+        the signatures of generate / map / zip / fold and of the defaults, and the bounds a generic caller states ---- *)
+From Coq Require Import String.
+From GA Require Import SigDefs.
+From GAGen Require Import GenSigs.
+Local Open Scope string_scope.
+
+Theorem C08_source_trait_headers :
+  trait_header_of "pub unsafe trait GenericSequence<T>" = Some ["Self:IntoIterator"; "Self:Sized"; "fn generate < F > (f : F) -> Self :: Sequence where F : FnMut (usize) -> T"; "fn inverted_zip < B , U , F > (self , lhs : GenericArray < B , Self :: Length > , mut f : F ,) -> MappedSequence < GenericArray < B , Self :: Length > , B , U > where GenericArray < B , Self :: Length > : GenericSequence < B , Length = Self :: Length > + MappedGenericSequence < B , U > , Self : MappedGenericSequence < T , U > , F : FnMut (B , Self :: Item) -> U , {default}"; "fn inverted_zip2 < B , Lhs , U , F > (self , lhs : Lhs , mut f : F) -> MappedSequence < Lhs , B , U > where Lhs : GenericSequence < B , Length = Self :: Length > + MappedGenericSequence < B , U > , Self : MappedGenericSequence < T , U > , F : FnMut (Lhs :: Item , Self :: Item) -> U , {default}"; "type Length:ArrayLength"; "type Sequence:FromIterator<T>"; "type Sequence:GenericSequence<T,Length=Self::Length>"] /\
+  trait_header_of "pub trait MappedGenericSequence<T,U>" = Some ["Self:GenericSequence<T>"; "type Mapped:GenericSequence<U,Length=Self::Length>"] /\
+  trait_header_of "pub trait FunctionalSequence<T>" = Some ["Self:GenericSequence<T>"; "fn fold < U , F > (self , init : U , f : F) -> U where F : FnMut (U , Self :: Item) -> U , {default}"; "fn map < U , F > (self , f : F) -> MappedSequence < Self , T , U > where Self : MappedGenericSequence < T , U > , F : FnMut (Self :: Item) -> U , {default}"; "fn zip < B , Rhs , U , F > (self , rhs : Rhs , f : F) -> MappedSequence < Self , T , U > where Self : MappedGenericSequence < T , U > , Rhs : MappedGenericSequence < B , U , Mapped = MappedSequence < Self , T , U > > , Rhs : GenericSequence < B , Length = Self :: Length > , F : FnMut (Self :: Item , Rhs :: Item) -> U , {default}"].
+Proof. repeat split. Qed.
